@@ -45,6 +45,16 @@ func capitalizeName(name string) string {
 	return name
 }
 
+// _maxPreAlloc bounds what a length merely declared in the input may allocate up front
+const _maxPreAlloc = 1024
+
+func minInt(a, b int) int {
+	if a < b {
+		return a
+	}
+	return b
+}
+
 func getTag(reader ByteRuneReader, flag int32) (byte, error) {
 	if flag != _tagRead {
 		return byte(flag), nil
